@@ -50,6 +50,15 @@ func checkJSONScan(cx *lib.Ctx, src []byte, start hcl.Pos) {
 			fail("overlap", fmt.Sprintf("token %d starts at %d before the previous end %d", i, s, prevEnd))
 			return
 		}
+		// lines are obtained by counting newline bytes (independent of the model)
+		if want := start.Line + bytes.Count(src[:s], []byte("\n")); t.Range.Start.Line != want {
+			fail("line:start", fmt.Sprintf("token %d starts on line %d, counting newlines gives %d (offset %d)", i, t.Range.Start.Line, want, s))
+			return
+		}
+		if want := start.Line + bytes.Count(src[:e], []byte("\n")); t.Range.End.Line != want {
+			fail("line:end", fmt.Sprintf("token %d ends on line %d, counting newlines gives %d (offset %d)", i, t.Range.End.Line, want, e))
+			return
+		}
 		for _, c := range src[prevEnd:s] {
 			if c != ' ' && c != '\t' && c != '\r' && c != '\n' {
 				fail("gap:"+byteClass(c), fmt.Sprintf("gap [%d,%d) before token %d contains %q", prevEnd, s, i, src[prevEnd:s]))
